@@ -47,6 +47,11 @@ func refClass(p string, i int, c byte) (ok, dontCare bool, end int, hit bool) {
 				if hi == ']' || hi == '\\' || hi == '-' || hi == '^' || hi == '[' {
 					return true, true, 0, false
 				}
+				if p[i] > hi {
+					// a reversed range ("[b-a]"): the documented grammar does not say what it denotes (Redis swaps
+					// the bounds, other globbers treat it as empty): not settled
+					return true, true, 0, false
+				}
 				if p[i] <= c && c <= hi {
 					hit = true
 				}
